@@ -1957,10 +1957,15 @@ class SchemaValidator:
                         output_obj["to"]
                     )
 
-                field_type = self._resolve_type_from_object_path(
-                    object_type_ref=object_promise["object_type"],
-                    attribute_path=output_obj["to"],
-                )
+                try:
+                    field_type = self._resolve_type_from_object_path(
+                        object_type_ref=object_promise["object_type"],
+                        attribute_path=output_obj["to"],
+                    )
+                except Exception:
+                    # e.g. an edge attribute whose object_type names something that is not an object type
+                    field_type = None
+
                 if field_type is None:
                     errors += [
                         f"{self._context(f'{path}.to')}: field {json.dumps(output_obj['to'])} not found on object type: {object_promise['object_type']}"
